@@ -80,6 +80,23 @@ theorem C13_relabel (f : κ → κ') (hf : Injective f) (protein : List String) 
     simp only [Except.map, defaultTargets_rename]
     exact applyMods_rename f hf protein ff nodes st.graphs _ _
 
+/-- **C13_relabel_full.**  The same for the whole of `MapToMolecule.run_molecule`, INCLUDING
+`match_nodes_to_blocks` (depth-first search over the residue graph, connected components of the
+`from_itp` nodes, slicing of fragments into copies): renaming the nodes of the graph (nodes, adjacency
+lists) by any injective `f` gives the same molecule and exclusion distance, the same acceptance or
+rejection, and the same per-residue atom lists under the new names. -/
+theorem C13_relabel_full (f : κ → κ') (hf : Injective f) (ff : FF) (g : ResGraph κ) :
+    mapToMolecule ff (renameGraph f g) = (mapToMolecule ff g).map (fun r => (renameSt f r.1, r.2)) :=
+  mapToMolecule_rename f hf ff g
+
+example : (renameSt (fun k : Nat => ("node", 7 * k + 3)) ⟨⟨[], []⟩, [(3, [0, 1])], [5], []⟩).mol = ⟨[], []⟩ := rfl
+
+example : (mapToMolecule Example.ff (renameGraph (fun k : Nat => ("node", 1000 - k))
+      ⟨Example.nodes2, adjOfEdges [30, 28, 32, 31, 29] [(28, 29), (29, 30), (30, 31), (31, 32)]⟩)).toOption.map (·.1.mol) =
+    (mapToMolecule Example.ff
+      ⟨Example.nodes2, adjOfEdges [30, 28, 32, 31, 29] [(28, 29), (29, 30), (30, 31), (31, 32)]⟩).toOption.map (·.1.mol) := by
+  decide
+
 /-- the per-residue atom lists (`graph` attributes) are the same under the new names -/
 theorem C13_relabel_graphs (f : κ → κ') (hf : Injective f) (ff : FF) (t : Tables κ) (nodes : List (ResNode κ)) :
     addBlocks ff (renameTables f t) (nodes.map (renameNode f)) = (addBlocks ff t nodes).map (renameSt f) :=
